@@ -141,8 +141,15 @@ def run_data(desc, ctx):
     rng = random.Random("C11-d-%s-%s" % (desc["seed"], desc["k"]))
     for ci in range(desc["n"]):
         hours = rng.choice([None, [0, 6, 12, 18], [0, 23], list(range(24))])
+        subtimes = None
+        if rng.random() < 0.2:
+            # rapid-update cycles: runs of one hour / day / week that differ in their minutes are one slice of the coarser axes
+            t0 = gen.pick_times(rng, 1)[0]
+            step = rng.choice([900, 1800, 5400, 86400 + 1800, 2 * 86400 + 900])
+            subtimes = [t0 + j * step for j in range(rng.randint(3, 6))]
+            ctx.count("datasets_with_subhourly_runs")
         ds = gen.make_dataset(rng, n_inputs=rng.choice([1, 1, 2]), fmt=rng.choice(["text", "nc"]), miss=rng.choice([0.0, 0.1, 0.25]),
-                              max_t=6, max_l=5, hours=hours, sparse=0.0,
+                              max_t=6, max_l=5, hours=hours, sparse=0.0, times=subtimes,
                               leadtime_pool=[0, 1, 12, 23, 24, 25, 36, 47, 48, 49, 72, 96, 240, 400, 23.5, 71.75])
         if rng.random() < 0.35:
             # dry spells: every observation (or forecast) of a whole time, lead time or location is exactly 0 - still cases
